@@ -123,6 +123,17 @@ def burst (L eps : Rat) (dmax : Nat) : Rat := L * (Gen.pauseThreshold + eps) + d
 /-- burst allowance for time stamps taken when the bytes cross the underlying stream (one stream) -/
 def burstPre (L eps : Rat) (dmax : Nat) : Rat := L * (Gen.pauseThreshold + eps) + 2 * dmax
 
+/-! ## the round-robin history of defect candidate D16 (witness of `C20.multi_stream_counterexample`) -/
+/-- threads `i, i+1, …, i+n-1` each move `d` bytes, the underlying call taking `lat` -/
+def roundFrom (d : Nat) (lat : Rat) : Nat → Nat → List Ev
+  | _, 0 => []
+  | i, n + 1 => Ev.io i d lat 0 :: roundFrom d lat (i + 1) n
+
+/-- `k` rounds of `N` threads -/
+def rounds (N d : Nat) (lat : Rat) : Nat → List Ev
+  | 0 => []
+  | k + 1 => roundFrom d lat 0 N ++ rounds N d lat k
+
 /-! ## two directions -/
 inductive Dir where
   | read | write
